@@ -10,6 +10,14 @@ the log_lines_total delta.  Long random streams come from `tlc -simulate`.
 import vlib
 
 LEVEL = "model_checking"
+META = {
+    "text": "TLC exhausts spec/LineReader.tla (buf/cap/off actions of reader.go) against the ideal Split() for every stream "
+            "of <=5 (thorough 6, model-only 8) bytes over {LF,CR,x,2-byte rune}, every chunking, buffer sizes 1-4, and every "
+            "finished behaviour is replayed into the real LineReader with a scripted io.Reader; long streams via -simulate.",
+    "note": "Trusts TLC, the io.Reader contract, and that non-delimiter bytes are interchangeable (the code inspects only LF/CR).",
+    "technique": "TLA+ spec + TLC exhaustive/simulated behaviours replayed into real LineReader (direction A)",
+    "design_ref": "DESIGN.md 5/C15, Appendix A.1",
+}
 INVS = ["TypeOK", "PrefixOK", "FramingOK", "Emit"]
 
 
